@@ -84,7 +84,7 @@ def ck_df_has_columns(df):
 
 
 def ck_df_first_col_notnull(df):
-    return df.iloc[:, 0].notna()
+    return True if df.shape[1] == 0 else df.iloc[:, 0].notna()
 
 
 def parse_identity(x):
